@@ -222,6 +222,13 @@ def limit_mem():
     resource.setrlimit(resource.RLIMIT_AS, (cap, cap))
 
 
+def limit_mem_playback():
+    # concrete playback makes kani-driver hold CBMC's whole JSON trace in memory (measured: a single
+    # 25 GB allocation for a 170 s harness); it runs alone, so it gets a larger cap
+    cap = int(os.environ.get("VERIF_PLAYBACK_MEM_GB", "44")) * 1024 * 1024 * 1024
+    resource.setrlimit(resource.RLIMIT_AS, (cap, cap))
+
+
 # --------------------------------------------------------------------------------------------
 # running kani
 # --------------------------------------------------------------------------------------------
@@ -368,7 +375,7 @@ def get_playback_test(h, logf, timeout_s):
         "-Z", "concrete-playback", "--concrete-playback=print",
     ]
     with open(logf, "w") as lf:
-        subprocess.run(cmd, cwd=WS, env=cargo_env(), stdout=lf, stderr=subprocess.STDOUT, preexec_fn=limit_mem)
+        subprocess.run(cmd, cwd=WS, env=cargo_env(), stdout=lf, stderr=subprocess.STDOUT, preexec_fn=limit_mem_playback)
     text = open(logf, errors="replace").read()
     tests = re.findall(r"```\n(.*?)```", text, re.S)
     # keep counterexamples of failed checks only (reachability-witness playbacks are not violations)
@@ -580,10 +587,30 @@ def check(prop, tier, only, jobs, seed):
             # same failing check already reproduced natively on a smaller shape: no need to replay again
             log(f"  note {h['full']}: same failing check(s) as an already replayed counterexample; not replayed again")
             continue
-        rep = make_replay(prop, h, fails, default_timeout)
+        rep = make_replay(prop, h, fails, max(1800, 4 * default_timeout))
         if rep is None:
-            inconclusive.append(f"{h['name']}: counterexample could not be extracted for replay")
-            log(f"  ??   {h['full']}: no concrete playback could be generated; treating as inconclusive")
+            # Kani could not turn CBMC's trace into a playback test (kani-driver runs out of memory on
+            # very large traces). Last resort: have the OTHER SAT back end decide the same harness; the
+            # violation is reported only if it independently fails the same checks.
+            alt = "cadical" if h["solver"] == "minisat" else "minisat"
+            logf = os.path.join(WORK, f"kani_{prop}_{h['name']}_crosscheck_{alt}.log")
+            log(f"  note {h['full']}: no concrete playback could be generated; cross-checking with --solver {alt}")
+            rc2, text2, _ = run_kani(h["pkg"], [h], 1, max(1800, 3 * default_timeout), logf, extra=("--solver", alt))
+            r2 = parse_kani_output(text2).get(h["full"])
+            same = r2 is not None and r2["status"] == "failed" and \
+                {f["desc"] for f in fails} <= {f["desc"] for f in r2["failed"]}
+            if same:
+                path = os.path.join(REPLAYS, prop, h["name"] + ".json")
+                os.makedirs(os.path.dirname(path), exist_ok=True)
+                json.dump(dict(property=prop, harness=h["name"], harness_full=h["full"], failed_checks=fails,
+                               native_replay="unavailable: kani concrete playback could not be generated (trace too large)",
+                               confirmation=f"the same checks fail under both SAT back ends ({h['solver']} and {alt})",
+                               how_to_run=f"./check {prop} --only {h['name']}"), open(path, "w"), indent=1)
+                confirmed.append((h, fails, path))
+                replayed_checks |= sig
+            else:
+                inconclusive.append(f"{h['name']}: counterexample could not be extracted for replay and the second solver did not confirm it")
+                log(f"  ??   {h['full']}: not confirmed by the second solver; treating as inconclusive")
             continue
         res = run_replay(rep, tag=f"replay_{prop}")
         rep["native_result"] = {k: v for k, v in res.items()}
@@ -617,6 +644,8 @@ def make_replay(prop, h, fails, timeout_s):
     if not tests:
         return None
     code = "\n".join(tests)
+    # harness modules may shadow `Vec` / `vec!` with models: make the generated tests hygienic
+    code = code.replace("Vec<Vec<u8>>", "std::vec::Vec<std::vec::Vec<u8>>").replace("vec![", "std::vec![")
     names = re.findall(r"fn (kani_concrete_playback_\w+)\(", code)
     nd, npkg = native_crate(h)
     return dict(
